@@ -11,18 +11,53 @@ META = {
     "level_note": "Trusted: Coq kernel+VM; hand-written model Model/ChaChaGuts.v (little-endian arms of d0123/add_pos; "
                   "vector operations at their lane meaning Spec/Lanes.v, which C12/C13/C03 tie to the back ends) tied to "
                   "guts.rs on generated cases per back end; harness. No axioms.",
-    "rule": "cases = (key, 64-bit counter, 64-bit stream id, drounds 0..10 round-robin) from seeded xoshiro; the first 154 "
-            "cases pair each of 14 boundary counters (0, 2^32-4..2^32, 2^64-5..2^64-1, random high word with low word "
-            "0xfffffffd..ff) with each round count, so the low-word carry and the 2^64 wrap land in every lane and in the "
-            "final add_pos; then random/boundary mix; every 5th stream id is all-ones; distinct = distinct "
-            "(key,counter,id,drounds), all non-trivial; per case the implementation runs refill4 and 4 x refill from "
-            "clones (panics caught) and reports bytes and get_stream_param(0/1) afterwards; direct check: bytes equal, "
-            "states equal, counter advanced by 4 mod 2^64 and stream id unchanged; model evaluated inside coqc",
+    "rule": 'cases = (key, 64-bit counter, 64-bit stream id, drounds 0..10 round-robin) from seeded xoshiro; the state is '
+            'built in three ways in turn (ChaCha::new with an 8-byte nonce = id, with a 12-byte nonce = high counter word '
+            '++ id, or with a zero nonce and both parameters set) and the d words sent to the model are computed from '
+            '(counter, id), not read back (a read-back that differs is a failure); the first 154 cases pair each of 14 '
+            'boundary counters (0, 2^32-4..2^32, 2^64-5..2^64-1, random high word with low word 0xfffffffd..ff) with each '
+            'round count, so the low-word carry and the 2^64 wrap land in every lane and in the final add_pos; 22 cases '
+            '5..9 below a boundary (the carry falls into the continuation); then random/boundary mix; every 5th stream id '
+            'is all-ones; distinct = distinct (key,counter,id,drounds), all non-trivial; per case the implementation runs '
+            'refill4 and 4 x refill from clones, then CONTINUES on the same two objects with refill4; refill and refill; '
+            'refill4 (panics caught) into buffers pre-filled with a case-dependent non-zero pattern, and reports bytes, '
+            'get_stream_param(0/1), and whether the two objects are equal as whole states (==, key rows included) and '
+            'equal to a state created from scratch at counter+4; direct check: bytes equal (both phases), states equal, '
+            'counter advanced by 4 then 9 mod 2^64 and stream id unchanged; model evaluated inside coqc on all of it; per '
+            'configuration the forced level is read back (verif::level()) and the Machine type selected by dispatch! / '
+            'dispatch_light128! (expanded in the harness) must be the one that goes with the level',
     "assumptions": ["little-endian host (the big-endian arms of d0123/add_pos are not compiled)",
                     "back ends selected through the cfg(cryptocorrosion_verif) level override of ppv-lite86 dispatch"],
 }
 
 LEVELS = ((1, "sse2"), (2, "ssse3"), (3, "sse41"), (4, "avx"), (5, "avx2"))
+# Machine type each dispatch macro must select under a forced level (SSE4.1 and AVX are the same Machine type;
+# dispatch_light128 knows two: AVX from level 4 on, else SSE2), observed by expanding the macros in the harness
+EXPECT_DISPATCH = {1: "sse2", 2: "ssse3", 3: "sse41", 4: "sse41", 5: "avx2"}
+EXPECT_LIGHT128 = {1: "sse2", 2: "sse2", 3: "sse2", 4: "sse41", 5: "sse41"}
+
+
+def _host_has(flags):
+    try:
+        for line in open("/proc/cpuinfo"):
+            if line.startswith("flags"):
+                have = set(line.split(":", 1)[1].split())
+                return all(f in have for f in flags)
+    except OSError:
+        pass
+    return False
+
+
+def _level_honoured(s, level, label):
+    """the level that was asked for is the one in force, and the macros select the Machine type that goes with it"""
+    if s.get("backend_level_read_back") != level:
+        raise vlib.CheckError("%s: back-end level %d requested, verif::level() reads %r" % (label, level, s.get("backend_level_read_back")))
+    if _host_has(("sse2", "ssse3", "sse4_1", "avx", "avx2")):
+        got = (s.get("machine_selected_by_dispatch"), s.get("machine_selected_by_dispatch_light128"))
+        if got != (EXPECT_DISPATCH[level], EXPECT_LIGHT128[level]):
+            raise vlib.CheckError("%s: level %d is stored but not honoured: dispatch! selects %s, dispatch_light128! selects %s "
+                                  "(expected %s / %s): the runs labelled with this back end would exercise another one"
+                                  % (label, level, got[0], got[1], EXPECT_DISPATCH[level], EXPECT_LIGHT128[level]))
 
 
 def run(ctx):
@@ -30,15 +65,17 @@ def run(ctx):
     ok, log = vlib.coq_make(["Run/ChaCha.vo"])      # the case runner (not in the cone of Props/C14.v)
     if not ok:
         raise vlib.CheckError("Run/ChaCha.vo does not build: %s" % log[-2000:])
-    n = 11 * 16 if ctx.quick else 11 * 150
+    n = 11 * 18 if ctx.quick else 11 * 150
     for profile in ("debug", "release"):
         binary, log = vlib.cargo_build(profile=profile, bin_name="h_chacha")
         if binary is None:
             raise vlib.CheckError("harness build failed (%s): %s" % (profile, log[-2000:]))
         for level, name in LEVELS:
             s = vlib.correspondence(ctx, binary, "c14", ["--count", n, "--level", level], "%s/%s" % (name, profile))
-            ctx.log("%s/%s: %d cases, %d disagree with the model, %d direct failures" %
-                    (name, profile, s.get("evaluations", 0), len(s["failing"]), len(s.get("direct_failures", []))))
+            ctx.log("%s/%s: %d cases, %d disagree with the model, %d direct failures; level read back %s, machines %s / %s" %
+                    (name, profile, s.get("evaluations", 0), len(s["failing"]), len(s.get("direct_failures", [])),
+                     s.get("backend_level_read_back"), s.get("machine_selected_by_dispatch"), s.get("machine_selected_by_dispatch_light128")))
+            _level_honoured(s, level, "%s/%s" % (name, profile))
             vlib.decide_relative(ctx, s, explain="explain_c14",
                                  theorem="C14_refill4_eq_4_refills, C14_refill_emits_then_advances",
                                  what="Model/ChaChaGuts.v refill / refill_wide")
@@ -50,6 +87,8 @@ def run(ctx):
         s = vlib.correspondence(ctx, binary, "c14", ["--count", n, "--level", 0], "portable/%s" % profile)
         ctx.log("portable/%s: %d cases, %d disagree with the model, %d direct failures" %
                 (profile, s.get("evaluations", 0), len(s["failing"]), len(s.get("direct_failures", []))))
+        if s.get("machine_selected_by_dispatch") != "generic":
+            raise vlib.CheckError("portable/%s: the no_simd build selects %r" % (profile, s.get("machine_selected_by_dispatch")))
         vlib.decide_relative(ctx, s, explain="explain_c14",
                              theorem="C14_refill4_eq_4_refills, C14_refill_emits_then_advances",
                              what="Model/ChaChaGuts.v refill / refill_wide")
